@@ -600,6 +600,9 @@ func (x *Exec) loadAt(st *State, prefix string, idx *Term, t types.Type) Value {
 		ts = append(ts, Select(arr, idx))
 	}
 	v, _ := x.unflatten(t, ts)
+	// every value stored in memory satisfies its representation invariant (len <= cap, ...):
+	// inputs by assumption, values built by the program by construction
+	x.assumeTypeInv(st, t, v)
 	return v
 }
 
@@ -769,6 +772,7 @@ func (x *Exec) loadElem(st *State, base, idx *Term, t types.Type) Value {
 		ts = append(ts, Select(Select(arr, base), idx))
 	}
 	v, _ := x.unflatten(t, ts)
+	x.assumeTypeInv(st, t, v)
 	return v
 }
 
